@@ -146,7 +146,13 @@ class Runner:
         ts_given = list(ts)
         args_before = (dict(stop), list(ts_given), dict(direc), {k: {a: b for a, b in v.items() if a != "output"} for k, v in mons.items()})
         with np.errstate(all="ignore"), core.time_limit(HORIZON):
-            out = call(f, o.get("cfl", CFL), ts_given, stop=stop, monitors=mons, directives=direc)
+            # empty arguments are left to the library's defaults, as a user would: the default objects are shared by every call of the process
+            kw = {"stop": stop}
+            if mons or shared_mon is not None:
+                kw["monitors"] = mons
+            if direc:
+                kw["directives"] = direc
+            out = call(f, o.get("cfl", CFL), ts_given, **kw) if ts_given else call(f, o.get("cfl", CFL), **kw)
         args_after = (dict(stop), list(ts_given), dict(direc), {k: {a: b for a, b in v.items() if a != "output"} for k, v in mons.items()})
         self.args_changed = getattr(self, "args_changed", None) or (None if args_after == args_before else
                                                                     "stop/save-times/directives/monitor arguments changed from %r to %r" % (args_before, args_after))
